@@ -145,7 +145,7 @@ impl Prop for C31 {
     fn runs(tier: Tier) -> u64 {
         match tier {
             Tier::Quick => 300_000,
-            Tier::Thorough => 10_000_000,
+            Tier::Thorough => 40_000_000,
         }
     }
     fn gen(r: &mut SplitMix, _t: Tier, _i: u64) -> Scn {
